@@ -139,6 +139,12 @@ func H_C01_switchover() {
 	cfg.ForceSwitchover = verifnd.Param("force", 0) == 1 && verifnd.Choose("cfg.force", 2) == 1
 	cfg.SlaveCatchUpTimeout = 30 * time.Second
 	verifnd.MaxSleeps = verifnd.Param("polls", 2)
+	if verifnd.Param("concrete_clock", 1) == 1 {
+		// timing is not the subject here: deterministic clock (1 ms per reading), wait loops bounded by `polls`
+		verifnd.ConcreteClockStep = 1_000_000
+	} else {
+		verifnd.ClockAbs = true
+	}
 	w := verifNewWorld(cfg, ha, nil)
 	c := &verifC01{w: w, oldMaster: master, semi: cfg.SemiSync, wcfg: wcfg}
 
@@ -216,7 +222,7 @@ func H_C01_switchover() {
 	cs := w.observe()
 	w.fleet.Havoc = true
 	w.fleet.LogReads = false
-	w.dcs.LockMode = 1
+	w.dcs.LockMode = verifnd.Param("locks", 1)
 
 	// intercepts specific to this harness
 	VerifHook_App_updateActiveNodes = func(app *App, clusterState, clusterStateDcs map[string]*nodestate.NodeState, oldActiveNodes []string, master string) error {
@@ -260,6 +266,7 @@ func H_C01_switchover() {
 	w.fleet.Before = c.beforeStatement
 	w.fleet.FaultBudget = verifnd.Param("faults", 0)
 	w.fleet.FaultKinds = verifnd.Param("fault_kinds", 2)
+	w.fleet.FaultMutatingOnly = verifnd.Param("fault_mut_only", 0) == 1
 	w.dcs.Before = func(op, path string) {
 		if c.lockRefused && c.stmtAfterRefusal == "" && (path == pathMasterNode || path == pathActiveNodes) {
 			c.stmtAfterRefusal = "dcs " + op + " " + path
@@ -323,3 +330,6 @@ func H_C01_switchover() {
 
 // H_C01_switchover_faults: the same procedure with one failing or lost-reply MySQL call.
 func H_C01_switchover_faults() { H_C01_switchover() }
+
+// H_C01_switchover_locks: the same procedure with every AcquireLock answer decided per call.
+func H_C01_switchover_locks() { H_C01_switchover() }
